@@ -29,9 +29,11 @@ VARIABLES fam, arr, tol,   \* the case
           reps,            \* the memory representations under which the driver executes the case (RepsOf(arr)): compress()
                            \* hands the array object it was given to the encoders (ByteArray for the lossless form and
                            \* for arrays of one element, FixedPoint otherwise); the result is a function of the values
+          levels,          \* the container levels at which the driver calls compress() for the case (Levels); the
+                           \* expected result is the same at all of them
           ok               \* sci: every array the model may return is inside the tolerance;
                            \* int: all 12 candidate chains return Smallest(arr) exactly
-vars == <<fam, arr, tol, done, dom, impl, dstar, sit, kb, reps, ok>>
+vars == <<fam, arr, tol, done, dom, impl, dstar, sit, kb, reps, levels, ok>>
 
 \* the last element repeated r more times
 Stretch(v, r) == v \o [i \in 1..r |-> v[Len(v)]]
@@ -43,6 +45,7 @@ Common == {Sci(15, -13), Sci(-7125, -16),                 \* 1.5e-12, -7.125e-13
            Sci(-12345678, -23),                           \* -1.2345678e-16: 17 .. 22 decimals, rounded
            Sci(125, -3), Sci(-5, -1), Sci(25, -2),        \* fractions
            Sci(12345, -3),                                \* a coordinate
+           Num(123456789, -8), Num(-987654321, -7),       \* nine significant digits: 1.23456789, -98.7654321
            Num(214748364, -1), Num(214748365, -1), Num(-214748365, -1),   \* x * 10^2 = int32 max -+ : fits / does not
            Sci(3, 9), Sci(-3, 9),                         \* beyond int32 already unscaled
            Sci(15, 29)}                                   \* 1.5e30
@@ -56,7 +59,8 @@ Deep == Sci(12345, -310)                                                     \* 
 DeepArrays(t) == IF t = 32 THEN {}
                  ELSE {<<Deep>>, <<Deep, Deep>>, <<Deep, Sci(125, -3)>>, <<Sci(125, -3), Deep>>,
                        <<Deep, SciNaN>>, <<Sci(15, 29), Deep>>}
-Tols(t) == IF t = 33 THEN {10, 1000, 1000000} ELSE {10, 1000}
+\* 1e-1, 1e-3 looser than the default tolerance of compress() (1e-6), 1e-6 the default, 1e-8 stricter
+Tols(t) == IF t = 33 THEN {10, 1000, 1000000, 100000000} ELSE {10, 1000}
 Stretches(t) == IF t = 33 /\ ~Rich THEN {0} ELSE {0, 12}
 \* (no union of the families / lengths is ever built: TLC merges large unions quadratically; see Init)
 
@@ -78,7 +82,7 @@ Init == /\ \/ \E t \in FloatTypes, k \in 1..SciLen : \E v \in [1..k -> Vals(t)],
            \/ \E t \in FloatTypes : \E v \in DeepArrays(t), r \in Stretches(t), T \in Tols(t) : InitSci(t, v, r, T)
            \/ \E k \in 1..2 : \E v \in [1..k -> EdgeVals], r \in {0, 12} :
                  fam = "int" /\ arr = Arr(3, Stretch(v, r)) /\ tol = 1000
-        /\ done = FALSE /\ dom = TRUE /\ impl = [oc |-> "todo", ys |-> {}, fits |-> FALSE] /\ dstar = 0 /\ sit = {} /\ kb = {} /\ ok = TRUE /\ reps = {}
+        /\ done = FALSE /\ dom = TRUE /\ impl = [oc |-> "todo", ys |-> {}, fits |-> FALSE] /\ dstar = 0 /\ sit = {} /\ kb = {} /\ ok = TRUE /\ reps = {} /\ levels = {}
 Compute ==
   /\ ~done /\ done' = TRUE
   /\ dom' = (fam = "sci" => Dom_Sci(arr, tol))
@@ -95,6 +99,7 @@ Compute ==
      ELSE /\ impl' = [oc |-> "ok", ys |-> {}, fits |-> FALSE] /\ dstar' = 0 /\ sit' = {} /\ kb' = {}
           /\ ok' = \A c \in Candidates : LET r == ImplRoundTrip(c, Smallest(arr)) IN r.oc = "ok" /\ r.a.v = arr.v
   /\ reps' = RepsOf(arr)
+  /\ levels' = Levels
   /\ UNCHANGED <<fam, arr, tol>>
 Next == Compute
 Spec == Init /\ [][Next]_vars
@@ -107,6 +112,8 @@ InvTolerance == done => ok
 \* the call returns (at least the lossless array), also when no number of decimals reaches the tolerance
 \* the lossless form ByteArray writes is the same under every representation of the array
 InvRepFree == done => ("native" \in reps /\ RepFree(<<<<"BA", None>>>>, arr))
+\* the tolerance that was passed is the tolerance every data array is compressed with, whatever the level of the call
+InvLevelFree == done => (levels = Levels /\ \A lv \in levels : TolArriving(lv, tol) = tol)
 InvReturns == (done /\ dom /\ fam = "sci") =>
                  /\ impl.oc = "ok" /\ [i \in DOMAIN arr.v |-> arr.v[i].m] \in impl.ys
                  /\ ("DecimalsUnreachable" \in sit => ~impl.fits)
@@ -116,6 +123,8 @@ InvReturns == (done /\ dom /\ fam = "sci") =>
 ASSUME SciDecimals(Arr(33, <<Sci(12345, -3)>>), 100) = 1            \* 12.345 -> 12.3
 ASSUME SciDecimals(Arr(33, <<Sci(12345, -3)>>), 10) = 0             \* 12.345 -> 12
 ASSUME SciDecimals(Arr(33, <<Sci(12345, -3)>>), 1000000) = 3
+ASSUME SciDecimals(Arr(33, <<Num(123456789, -8), Num(-5, -1)>>), 100000000) = 7      \* 1.23456789 at 1e-8: 1.2345679
+ASSUME SciDecimals(Arr(33, <<Num(123456789, -8), Num(-5, -1)>>), 1000000) = 6        \* ... at the default: 1.234568
 ASSUME SciDecimals(Arr(33, <<Sci(15, -13), Sci(125, -3)>>), 1000) = 13
 ASSUME SciDecimals(Arr(33, <<Sci(3, 9), Sci(-5, -1)>>), 1000) = 1
 ASSUME SciDecimals(Arr(33, <<Sci(15, 29)>>), 10) = -29 /\ SciDecimals(Arr(33, <<Sci(15, 29), Sci(225, 28)>>), 1000) = -28
